@@ -212,6 +212,99 @@ tx_instance!(c20_pgn_text_castle, pgn_text_body, T_CASTLE);
 t_instance!(c12_parse_no_alias_4, parse_no_alias_body, false);
 t_instance!(c12_parse_no_alias_5, parse_no_alias_body, true);
 
+/// C20: the move record numbers the moves (`1. <white> <black> 2. <white> ...`), each move
+/// followed by a blank, and renders every move with `pgn_notation`.  A record of `n` concrete
+/// moves (a pawn move, a knight capture, a promotion, castling, ...).
+pub fn get_pgn_body(n: usize) {
+    let mut board = [spec::EMPTY; 64];
+    board[4] = spec::code(spec::KING, false);
+    board[60] = spec::code(spec::KING, true);
+    let mut game = crate::h_attack::board_only_game(&board, true);
+    let all = [
+        Move::Normal { piece: code_piece(spec::code(spec::PAWN, false)).unwrap(), start: position(12), end: position(28), captured_piece: None },
+        Move::Normal { piece: code_piece(spec::code(spec::KNIGHT, true)).unwrap(), start: position(57), end: position(42), captured_piece: code_piece(spec::code(spec::BISHOP, false)) },
+        Move::Promotion { owner: Player::White, new_piece: code_kind(spec::KNIGHT), start: position(54), end: position(63), captured_piece: code_piece(spec::code(spec::ROOK, true)) },
+        Move::CastlingLong { owner: Player::Black },
+        Move::EnPassant { owner: Player::White, start_col: 4, end_col: 3 },
+    ];
+    let mut record = Vec::new();
+    let mut i = 0;
+    while i < 5 {
+        if i < n {
+            record.push(all[i]);
+        }
+        i += 1;
+    }
+    game.verif_set_move_stack(record);
+    let text = game.get_pgn();
+    let got = text.as_bytes();
+    // expected: built with the spec's renderer and the numbering rule
+    let mut want = [0u8; 64];
+    let mut w = 0;
+    let mut i = 0;
+    while i < 5 {
+        if i < n {
+            if i % 2 == 0 {
+                want[w] = b'1' + (i / 2) as u8;
+                want[w + 1] = b'.';
+                want[w + 2] = b' ';
+                w += 3;
+            }
+            let (from, to, mk) = spec_move(&all[i]);
+            let (mover, cap) = match all[i] {
+                Move::Normal { piece, captured_piece, .. } => (piece_code(Some(piece)), captured_piece.is_some()),
+                Move::Promotion { owner, captured_piece, .. } => (spec::code(spec::PAWN, owner == Player::Black), captured_piece.is_some()),
+                Move::EnPassant { owner, .. } => (spec::code(spec::PAWN, owner == Player::Black), true),
+                Move::CastlingShort { owner } | Move::CastlingLong { owner } => (spec::code(spec::KING, owner == Player::Black), false),
+            };
+            let (t, tn) = spec::pgn_text(mover, from, to, mk, cap);
+            let mut k = 0;
+            while k < 8 {
+                if k < tn {
+                    want[w] = t[k];
+                    w += 1;
+                }
+                k += 1;
+            }
+            want[w] = b' ';
+            w += 1;
+        }
+        i += 1;
+    }
+    assert!(got.len() == w, "[C20] the move record has the wrong length (numbering / separators)");
+    let mut k = 0;
+    while k < 64 {
+        if k < w && k < got.len() {
+            assert!(got[k] == want[k], "[C20] the move record does not number and list the moves as played");
+        }
+        k += 1;
+    }
+    std::mem::forget(text);
+    std::mem::forget(game);
+}
+
+macro_rules! tp_instance {
+    ($name:ident, $n:expr) => {
+        #[cfg_attr(kani, kani::proof)]
+        #[cfg_attr(kani, kani::unwind(70))]
+        #[cfg_attr(kani, kani::stub(std::string::String::push, stub_string_push))]
+        pub fn $name() {
+            get_pgn_body($n)
+        }
+    };
+}
+
+// Not instantiated as proof harnesses: `get_pgn` (a `Vec<String>` collect plus `to_string()` of
+// the move number) runs CBMC out of memory (62 GB) even for three concrete moves.  The body is
+// kept because it runs natively (`rbreplay h_text::get_pgn_native_* <empty file>`) as a sanity
+// check of the expected text; it is not part of any claim.
+pub fn get_pgn_native_3() {
+    get_pgn_body(3)
+}
+pub fn get_pgn_native_5() {
+    get_pgn_body(5)
+}
+
 /// vacuity witnesses: these must FAIL
 pub fn witness_body(which: u8) {
     if which == 0 {
